@@ -338,7 +338,7 @@ func parsesAsFragment(src []byte) bool {
 
 // judgeTwin is the C02 oracle for one File: formatted rendering vs gofmt(raw rendering of the twin).
 func judgeTwin(r *mon.Run, c mon.Case, desc string, f1, f2 *jen.File) (valid bool) {
-	f2.NoFormat = true
+	f1.NoFormat, f2.NoFormat = false, true
 	b1, b2 := &bytes.Buffer{}, &bytes.Buffer{}
 	var e1, e2 error
 	if p, what := mon.Guard(func() { e1 = f1.Render(b1) }); p {
@@ -437,6 +437,12 @@ func c02RecipeCase(r *mon.Run, idx int64) {
 		}
 		r.Count("re_rendered_after_same_length_change", 1)
 	}
+	if idx%2 == 0 {
+		// the same two File objects with the roles swapped: the one just rendered raw is now rendered formatted
+		// and vice versa (NoFormat is an exported field a caller may flip between renders)
+		judgeTwin(r, c, desc+"; roles swapped: the File rendered with NoFormat before is now rendered formatted, and vice versa", b2.f, b1.f)
+		r.Count("re_rendered_with_noformat_flipped", 1)
+	}
 	nfrag := 0
 	for i, fr := range b1.frags {
 		fr := fr
@@ -521,7 +527,7 @@ func c02DamageCase(r *mon.Run, ci corpusItem) {
 }
 
 func runC02(r *mon.Run) {
-	r.SetRule("(1) random compositions over every construct of the API table (reflection-driven arguments: nested statements, nil/Null, strings incl. stray delimiters and comment markers, all Lit types, tag maps, Options, callbacks) under random File settings (constructor, prefix, alias/name hints incl. dot and reserved, Anon, cgo preamble, header/package comments, canonical path), one third grammar-biased so that valid files are common; twin build: formatted vs gofmt(NoFormat twin), parse, GoString; every top-level statement and captured Group also through Statement.Render / RenderWithFile / Group.Render. (2) real programs with one damaged list (dropped/duplicated/swapped item, stray delimiter or keyword, unrelated sub-tree). non-trivial = composition with >=1 statement / damaged program; distinct by seed")
+	r.SetRule("(1) random compositions over every construct of the API table (reflection-driven arguments: nested statements, nil/Null, strings incl. stray delimiters and comment markers, all Lit types, tag maps, Options, callbacks) under random File settings (constructor, prefix, alias/name hints incl. dot and reserved, Anon, cgo preamble, header/package comments, canonical path), one third grammar-biased so that valid files are common; twin build: formatted vs gofmt(NoFormat twin), parse, GoString, and again with NoFormat flipped on both Files; every top-level statement and captured Group also through Statement.Render / RenderWithFile / Group.Render. (2) real programs with one damaged list (dropped/duplicated/swapped item, stray delimiter or keyword, unrelated sub-tree). non-trivial = composition with >=1 statement / damaged program; distinct by seed")
 	r.Assume("outside the domain and never generated: Lit/LitFunc with an unsupported type, Values holding a Dict next to other items (documented panics); nil *File, nil Dict keys/values, ImportAlias(p, \"_\") (API misuse)")
 	c02NegControls(r)
 	n := r.Pick(20000, 400000)
